@@ -74,7 +74,75 @@ def shrink(spec, ops):
                 ops = cand; changed = True; break
     return ops
 
+# ---- second scenario family (real code + reference only): odd arguments and objects that are not yet in the model ----
+def odd_case(rnd):
+    """(a) add_asset with an id that is not an int but looks like one (2.0, True, '3'): the call must either honour the
+    id or raise and leave everything as it was — in particular the id must still be free afterwards;
+    (b) entry points registered on asset objects BEFORE these are added to the model (all of them still without id):
+    each object keeps exactly the steps registered for it"""
+    from ..mhist import Impl, coherent
+    from maltoolbox.model import AttackerAttachment
+    spec = LangGen(rnd).gen()
+    im = Impl(spec); m = im.m
+    concrete = [a['name'] for a in spec['assets'] if not a['isAbstract']] or [a['name'] for a in spec['assets']]
+    def new(name): return getattr(im.fac.ns, rnd.choice(concrete))(name=name)
+    log = []
+    for i in range(rnd.randint(1, 3)): m.add_asset(new(f'base{i}'))
+    for k in range(rnd.randint(1, 4)):
+        want = rnd.choice([20, 35, 47, -3]) + 100 * k          # not in use
+        odd = rnd.choice([float(want), str(want), float(want)])
+        before = canon_obs(im.obs())
+        x = new(f'odd{k}')
+        try:
+            m.add_asset(x, asset_id=odd); raised = None
+        except Exception as e: raised = type(e).__name__
+        log.append(f'add_asset(asset_id={odd!r}) -> {raised or "accepted"}')
+        if raised:
+            if canon_obs(im.obs()) != before:
+                return f'add_asset(asset_id={odd!r}) raised {raised} but changed the observable state', {'spec': spec, 'log': log}
+            y = new(f'int{k}')
+            try: m.add_asset(y, asset_id=want)
+            except Exception as e:
+                return f'after a rejected add_asset(asset_id={odd!r}) the id {want} is no longer available ({type(e).__name__})', {'spec': spec, 'log': log}
+        elif int(x.id) != want:
+            return f'add_asset(asset_id={odd!r}) was accepted with id {x.id}', {'spec': spec, 'log': log}
+        p = coherent(im)
+        if p: return p[0] + f' after add_asset(asset_id={odd!r})', {'spec': spec, 'log': log}
+    # (b)
+    pend = [new(f'pend{i}') for i in range(rnd.randint(2, 4))]
+    att = AttackerAttachment(name='early')
+    want = {}
+    for _ in range(rnd.randint(2, 7)):
+        i = rnd.randrange(len(pend)); st = rnd.choice(['s0', 's1', 's2', 's3'])
+        att.add_entry_point(pend[i], st); log.append(f'add_entry_point(pend{i}, {st})')
+        want.setdefault(i, [])
+        if st not in want[i]: want[i].append(st)
+    for x in pend: m.add_asset(x)
+    m.add_attacker(att)
+    got = {}
+    for a, steps in att.entry_points:
+        idx = [i for i, x in enumerate(pend) if x is a]
+        if not idx: return 'an entry point refers to an object that was never given', {'spec': spec, 'log': log}
+        if idx[0] in got: return 'two entry point tuples for one asset', {'spec': spec, 'log': log}
+        got[idx[0]] = list(steps)
+    if {k: sorted(v) for k, v in got.items()} != {k: sorted(v) for k, v in want.items()}:
+        return (f'entry points registered before the assets were added: per asset {dict(sorted(got.items()))}, registered {dict(sorted(want.items()))}'), {'spec': spec, 'log': log}
+    return None, {'spec': spec, 'log': log}
+
 def run(seed, tier, lean) -> Result:
+    res = _run(seed, tier, lean)
+    r = random.Random(seed ^ 0xC05)
+    for _ in range(120 if tier == 'quick' else 720):
+        cs = r.getrandbits(48)
+        bad, info = odd_case(random.Random(cs))
+        res.evaluations += 1; res.bump('odd_argument_cases')
+        if bad:
+            res.violations.append(Violation(what=bad[:300], fingerprint='C05:odd:' + ''.join(c for c in bad.split('(')[0] if not c.isdigit())[:50],
+                                            replay={'odd_seed': cs, **info, 'problem': bad}))
+            break
+    return res
+
+def _run(seed, tier, lean) -> Result:
     rnd = random.Random(seed)
     res = Result(rule='random histories (5-120 operations) of add/remove asset, association, attacker, entry point with valid and invalid '
                       'arguments (duplicate / zero / negative ids, colliding names, wrong types, exceeded multiplicities, removed objects) '
@@ -121,6 +189,8 @@ def run(seed, tier, lean) -> Result:
 
 def replay(path):
     r = json.load(open(path))
+    if 'odd_seed' in r:
+        bad, _ = odd_case(random.Random(r['odd_seed'])); print(bad); print('VIOLATION reproduced' if bad else 'not reproduced'); return 1 if bad else 0
     probs = failing(r['spec'], r['ops'])
     print('problems:', probs); print('VIOLATION reproduced' if probs else 'not reproduced')
     return 1 if probs else 0
